@@ -78,7 +78,7 @@ func opTimeout(op string) time.Duration {
 		return 4 * time.Second
 	}
 	switch strings.SplitN(op, " ", 2)[0] {
-	case "live", "udfsrv", "udfwrite":
+	case "live", "livex", "udfsrv", "udfwrite":
 		return 40 * time.Second
 	}
 	return 15 * time.Second
@@ -114,6 +114,12 @@ func (w *worker) ask(op string) (obs string, alive bool) {
 		if r.err != nil {
 			w.kill()
 			return "X crash", false
+		}
+		if strings.HasPrefix(r.s, "X ") {
+			// the worker itself gave up on the op (e.g. a node that spins for ever): do not reuse it
+			atomic.AddInt64(&hangs, 1)
+			w.kill()
+			return r.s, false
 		}
 		return r.s, true
 	case <-time.After(opTimeout(op)):
